@@ -48,6 +48,7 @@ def cases(tier, seed):
             yield {"kind": "modellist", "depth": rnd.choice([1, 2]), "members": members, "fast_pred_var": fpv, "seed": rnd.randrange(10**6)}
         for mean, depth, dims in itertools.product([0.0, 1.2], [1, 2, 3], [1, 2]):
             yield {"kind": "kiss", "mean": mean, "depth": depth, "dims": dims, "late_eval": depth > 1, "seed": rnd.randrange(10**6)}
+            yield {"kind": "kiss", "mean": mean, "depth": depth, "dims": dims, "late_eval": depth > 2, "fast_pred_var": True, "seed": rnd.randrange(10**6)}
         for mb, lik, depth, fpv in itertools.product([[], [2]], ["gauss", "fixed", "fixed+learn"], [2, 3], [False, True]):
             yield {"kind": "single", "mbatch": mb, "pattern": "m", "lik": lik, "depth": depth, "fast_pred_var": fpv, "detach": True, "n": 4, "m": 2, "late_eval": True, "seed": rnd.randrange(10**6)}
         # as many fantasy points as stored (fixed) noise values - in round one, and in round two (m2 == n + m1)
